@@ -226,7 +226,7 @@ declare_class(
 )
 
 
-@contract(SYNC_HB + ":SynchronousHyperbandScheduler.on_trial_result", props=("C05", "C20", "C13"))
+@contract(SYNC_HB + ":SynchronousHyperbandScheduler.on_trial_result", props=("C05", "C20", "C13", "C14"))
 class SyncHB_on_trial_result:
     params = dict(self=Obj("SyncHBFull"), trial=Obj("Trial"), result=Rec(loss=NanRealT, epoch=Int))
     ghost = GHOST
@@ -259,17 +259,28 @@ class SyncHB_on_trial_result:
             return {"no-slot-means-stop": result == "STOP", "nothing-reported": len(calls) == 0}
         lvl = [vs[i][1].level for i in range(len(ks)) if ks[i] == tid][0]
         bid = [vs[i][0] for i in range(len(ks)) if ks[i] == tid][0]
+        # the searcher sees each resource level of a trial once: levels up to the previous rung level were reported by the
+        # earlier run of the trial already (a script without check-pointing starts again from scratch)
+        prevs = [e for e in s.G.log if e[0] == "SyncBracketManager.level_to_prev_level"]
+        told = [e for e in s.G.log if e[0] == "SyncSearcher.on_trial_result"]
+        data = {}
+        if len(prevs) == 1:
+            prev = prevs[0][-1]
+            if old.result["epoch"] > prev:
+                data["searcher-told-once-above-the-previous-rung-level"] = len(told) == 1
+            else:
+                data["searcher-not-told-again-up-to-the-previous-rung-level"] = len(told) == 0
         if old.result["epoch"] < lvl:
-            return {"continues-below-its-level": result == "CONTINUE", "nothing-reported": len(calls) == 0, "still-pending": tid in s.self._trial_to_pending_slot}
+            return dict(data, **{"continues-below-its-level": result == "CONTINUE", "nothing-reported": len(calls) == 0, "still-pending": tid in s.self._trial_to_pending_slot})
         if len(calls) != 1:
             return {"reported-to-the-bracket-exactly-once": False}
         rb, slot = calls[0][1]
-        return {
+        return dict(data, **{
             "reported-to-the-bracket-exactly-once": True,
             "paused-at-its-level-never-stopped": result == "PAUSE",
             "own-slot-with-the-reported-value": rb == bid and slot.trial_id == tid and slot.level == lvl and (is_nan(slot.metric_val) if is_nan(old.result["loss"]) else req(slot.metric_val, old.result["loss"])),
             "no-longer-pending": tid not in s.self._trial_to_pending_slot,
-        }
+        })
 
 
 from pyvc.native import native_monitor  # noqa: E402
